@@ -402,6 +402,10 @@ class ActorSim:
                 rec.inst.receiveMessage(msg, sender_addr)
             except SimAbort:
                 raise
+            except (SystemExit, KeyboardInterrupt):
+                # Thespian's actor manager only catches Exception around a handler: the actor's process dies (its parent gets ChildActorExited)
+                self.handler_errors.append((receiver_key, type(msg).__name__, traceback.format_exc(), CLOCK.now, self.phase))
+                self.exit_actor(receiver_key, recursive=True, graceful=False)
             except Exception:
                 first = traceback.format_exc()
                 try:
